@@ -116,7 +116,9 @@ static void c05_file(Case& cs) {
   size_t nontriv = 0;
   for (size_t n : ns) {
     std::string desc = "prefix of " + std::to_string(n) + " / " + std::to_string(file.size()) + " bytes (header ends at " + std::to_string(header_end) + ", " + std::to_string(full.blocks.size()) + " blocks)";
-    LibRead r = lib_read(file.substr(0, n), true);
+    int copy_at = c.range(0, 3) == 0 ? (int)c.range(0, 2) : -1;
+    if (copy_at >= 0) { desc += " (reading continued through a copy of the reader made after " + std::to_string(copy_at) + " blocks)"; cs.st.cnt("prefixes_read_through_a_copied_reader"); }
+    LibRead r = lib_read(file.substr(0, n), true, copy_at);
     size_t expect_blocks = 0;
     for (auto& b : full.blocks) if (b.end <= n) expect_blocks++;
     if (n < header_end) {
